@@ -201,7 +201,7 @@ def run_C19(ctx, R):
     _per_config(ctx, R, lst.lst1)
     _per_config(ctx, R, lst.lst5)
     from .rules import shape
-    _per_config(ctx, R, shape.shp2)
+    _per_config(ctx, R, shape.shp2, configs=['cmake'])     # the sorter has no configuration-dependent code
     _scoped(ctx, R, tab.tab11, C19_ENTRIES, 4)
 
 
